@@ -12,7 +12,7 @@ n_mut = int(sys.argv[2]) if len(sys.argv) > 2 else 3
 root = sys.argv[3] if len(sys.argv) > 3 else "/tmp/wt"
 here = os.path.dirname(os.path.dirname(os.path.abspath(__file__)))
 props = [json.loads(l) for l in open(os.path.join(here, "properties.jsonl"))]
-words = {2: "TWO", 3: "THREE", 4: "FOUR"}[n_mut]
+words = {1: "ONE", 2: "TWO", 3: "THREE", 4: "FOUR"}[n_mut]
 for p in props:
     pid = p["id"]
     wt = "%s/R%d%s" % (root, rnd, pid)
